@@ -237,6 +237,10 @@ def decide(prop, tier, seed, args, t0):
             print(f"UNDECIDED property={prop} obligation={m} reason=obligation of the committed baseline was not generated on this tree")
         rc = 2
     # vacuity guards
+    if rc in (1, 2):
+        for j, r in zip(jobs, results):
+            if not r.get("superseded") and r["completed_paths"] + r["raised_paths"] == 0 and not r["unsupported"]:
+                print(f"UNDECIDED property={prop} obligation={j['id']} reason=case {j['case']} has no feasible path on this tree (nothing was checked for it)")
     if rc == 0:
         if n_ob == 0:
             print(f"CHECKER-ERROR property={prop}: zero obligations generated")
